@@ -37,7 +37,7 @@ class ClientAuthenticator:
         self.unixFDSupport = self._usesUnixSocketTransport(self.protocol)
         self.guid = None
         self.negotiatingUnixFD = False  # NEGOTIATE_UNIX_FD sent, not answered
-        self.cookiedir = None  # used for testing only
+        self.cookie_dir = None  # used for testing only
 
         self.authOrder = self.preference[:]
         self.authOrder.reverse()
